@@ -626,7 +626,7 @@ class ModuleFlow:
         if id(fnode) not in self._kinds:
             if self._mk is None:
                 self._mk = K.ModuleKinds(self.m)
-            self._kinds[id(fnode)] = K.Kinds(fnode, None, self._mk.call_kinds, None, self_name="", call_parts=self._mk.call_parts)
+            self._kinds[id(fnode)] = K.Kinds(fnode, None, self._mk.call_kinds, None, self_name="", call_parts=self._mk.call_parts, method_call=self._mk.method_call)
         return self._kinds[id(fnode)]
 
     def ret_shape(self, name):
